@@ -181,6 +181,10 @@ struct SampleRun {
         Frv x; for (int i = 0; i < 32; i++) x.b[i] = h[31 - (size_t) i];
         R.jv_wk_scalar_hash_reduce(view, x.b);
         env.check(Bn::from_le(x.b, 32) == want, "C10", "hash-to-scalar:value", "scalar_hash_reduce != (input with top bit cleared) mod r");
+        // initialisation order: the same entry points were called once from a constructor that ran ahead of the library's own dynamic initialisers
+        { int d = R.jv_early_probe_check(); env.count("probe:hash_to_scalar_before_library_initialisers_compared");
+          if (d >= 0) { static const char* ep[] = {"C scalar_hash_reduce", "C++ scalar_hash_reduce", "C zp_from_hash", "C++ Fr::hash_reduce"};
+              env.fail("C10", "hash-to-scalar:same-before-library-initialisers", strf("%s called from a global constructor that runs before the library's dynamic initialisers returned a different scalar for boundary input #%d than the same call does now", ep[d / 6], d % 6)); } }
         env.logf("HASHS %s", want.hexstr().c_str());
         env.add_case(strf("hashs ge_r%d top%d", Bn::mod(in, Bn(1).shl(255)) >= K().r, in.bit(255)), true);
     }
